@@ -36,6 +36,9 @@ var simBotKinds = map[byte]func(i int) simBotSpec{
 	'e': func(i int) simBotSpec { // eBGP
 		return simBotSpec{Name: fmt.Sprintf("e%d", i), IP: [4]byte{10, 0, 0, byte(1 + i)}, AS: uint32(65001 + i), RouterID: [4]byte{1, 1, 1, byte(1 + i)}}
 	},
+	'd': func(i int) simBotSpec { // eBGP, parallel sessions to ONE router: same AS and BGP identifier, different addresses
+		return simBotSpec{Name: fmt.Sprintf("d%d", i), IP: [4]byte{10, 0, 0, byte(1 + i)}, AS: 65001, RouterID: [4]byte{1, 1, 1, 1}}
+	},
 	'i': func(i int) simBotSpec { // iBGP non-client
 		return simBotSpec{Name: fmt.Sprintf("i%d", i), IP: [4]byte{10, 0, 0, byte(1 + i)}, AS: 65000, RouterID: [4]byte{1, 1, 1, byte(1 + i)}}
 	},
